@@ -787,6 +787,20 @@ Fixpoint b64enc (l : list N) : text :=
   | [] => []
   end.
 
+(* operations whose arguments are well-formed data *)
+Definition wf_text (s : text) : bool := forallb wf_char s.
+Definition wf_op (p : op) : bool :=
+  match p with
+  | OUpdate m | OIor m => wf_dict m
+  | OSetDefault k d => wf_text k && wf_jv d
+  | OSetItem k v => wf_text k && wf_jv v
+  | OFlash msg q _ => wf_jv msg && wf_text q
+  | ONewCsrf tok | OGetCsrf tok => wf_text tok
+  | _ => true
+  end.
+Definition wf_chain (l : list req) : Prop :=
+  Forall (fun r => Forall (fun pt => wf_op (fst pt) = true) (rops r)) l.
+
 Definition b64v (c : N) : option N :=
   if (65 <=? c)%N && (c <=? 90)%N then Some (c - 65)%N
   else if (97 <=? c)%N && (c <=? 122)%N then Some (c - 71)%N
@@ -813,6 +827,10 @@ Fixpoint b64dec (l : text) : option (list N) :=
       end
   | _ => None
   end.
+
+(* the real wire format: JSON + urlsafe base64 as written/read above; only the MAC stays abstract *)
+Definition real_O (macf : text -> text -> text) (n : nat) : oracles :=
+  {| mac := macf; ser := json_dumps; deser := json_loads; b64 := b64enc; unb64 := b64dec; ds := n |}.
 
 (* ------------------------------------------------------------------ wire glue *)
 Fixpoint get_jv (v : val) : option jv :=
